@@ -59,7 +59,10 @@ func runC13(c *core.Ctx) {
 			NoVarReuse: true, WSText: true, MaxDepth: 3, MaxNodes: 9, Probe: "xecho"}
 		g := gen.NewG(r, f, env)
 		prog := g.Program()
-		prog = append(prog, gen.Text{S: " "}, gen.Out{E: gen.Var{Name: "c1"}}, gen.Text{S: "\n"}, gen.Out{E: gen.Var{Name: "c2"}}, gen.Text{S: "\tend \n"})
+		prog = append(prog, gen.Text{S: " "}, gen.Out{E: gen.Var{Name: "c1"}}, gen.Text{S: "\n"}, gen.Out{E: gen.Var{Name: "c2"}})
+		if !r.P(1, 3) {
+			prog = append(prog, gen.Text{S: "\tend \n"})
+		} // else the template ends with an object: a right hyphen there faces the end of the template, and must not be remembered beyond it
 		if r.Bool() {
 			prog = append([]gen.Node{gen.Text{S: " \n start\t"}}, prog...)
 		}
